@@ -11,6 +11,7 @@ from harness.abstract_plan import abstract, dag_term, nid, op_order
 from harness.framework import cnatlist
 
 LEVEL = "proof"
+TRANSLATED_KERNELS = ["is_fuse_candidate", "can_fuse_primitive_ops", "can_fuse_multiple_primitive_ops"]   # harness/translate.py: the fusion guards are re-translated from /repo on every run and proved equal to Model.FuseGuard (= Model.Dag on views, Proofs/FuseGuardProofs.v)
 RULE = ("random typed array programs (harness/gen_programs.py: chains, diamonds, repeated arguments, reductions, selections, "
         "rechunks, several requested outputs); for each, the real Plan.dag is abstracted into a Model.Dag term, the real "
         "multiple_inputs_optimize_dag is run with drawn max_total_source_arrays / max_total_num_input_blocks / always_fuse / "
@@ -19,7 +20,7 @@ RULE = ("random typed array programs (harness/gen_programs.py: chains, diamonds,
         "distinct = distinct program+setting")
 ASSUMPTIONS = ["networkx.topological_sort returns a topological order (the recorded order is replayed, not predicted)",
                "block functions are deterministic functions of the blocks they are given"]
-TRUSTED = []
+TRUSTED = ["harness/translate.py (fail-closed Python-ast -> Gallina translator; logging calls have no effect on the result; zip(..., strict=True) over equally long lists)"]
 
 
 def settings(rng, dag):
